@@ -1168,8 +1168,21 @@ class Interp:
             if m is not None:
                 return ("clsmethod", c, name)
             kc, ce = self.repo.class_const(c, name)
+            if ce is None:
+                # a name-mangled private (`self.__class__.__x` inside class K is `_K__x`): stored under its source name
+                for kx in self.repo.mro(c):
+                    pre = "_" + kx.name.lstrip("_") + "__"
+                    if name.startswith(pre) and ("__" + name[len(pre):]) in kx.consts:
+                        kc, ce = kx, kx.consts["__" + name[len(pre):]]
+                        break
             if ce is not None:
-                return self.class_const_value(kc, c, ce)
+                v = self.class_const_value(kc, c, ce)
+                if v == ("fn", "const", []) and isinstance(ce, ast.Call) and self.repo.resolve_expr_class(kc.module, ce.func) is None:
+                    # an object of an external class created once in the class body (a queue, a lock): one shared opaque
+                    # object whose method calls are recorded
+                    v = ("ext", "%s.%s" % (kc.name, name.split("__")[-1]), [])
+                    self.class_attrs[(kc.qname, name)] = v
+                return v
             if name == "__name__":
                 return ("c", c.name)
             return ("fn", "%s.%s" % (c.name, name), [])
